@@ -96,6 +96,9 @@ def model(run, thorough):
             files, nw, wgc, "PROPERTY Terminates\n" if live else "")
         r = vlib.tlc_ok(vlib.run_tlc("Detector", c, timeout=1800), "Detector")
         run.add_tlc(r, "Detector files=%s workers=%d%s" % (files, nw, " +liveness" if live else ""))
+    # unbounded depth for fixed constants: inductive invariant "every file is in exactly one place; the WaitGroup counts
+    # the rows still to be written" discharged by Apalache (typed copy DetectorApa.tla of the same actions)
+    vlib.apalache_inductive(run, "DetectorApa", "CInitBig" if thorough else "CInitSmall", safety=("OneRowPerFile",))
     vlib.coverage_audit(run, "Detector", ['CONSTANTS Files={"a","b","c"} NW=2 WgCount=3\nSPECIFICATION Spec\nCHECK_DEADLOCK FALSE\n'],
                         ["MainAdd", "MainHeader", "MainExit", "Walk", "Recv", "Spawn", "Send", "Write"])
     for files, nw, wgc, want in [('{"a","b","c"}', 2, 2, "OneRowPerFile")]:
